@@ -95,7 +95,9 @@ inductive QueryFile where
 
 /-- how the configuration file fares -/
 inductive ConfigFile where
-  | missing
+  /-- `read_config_from_file` fails: no such file, or not TOML -/
+  | unreadable
+  /-- `CompassApp::try_from` fails -/
   | unbuildable
   | good
   deriving Repr, DecidableEq
@@ -189,7 +191,7 @@ def dispatchO {ε ρ : Type} (run : List Json → Outcome (Except ε ρ)) (a : C
 def afterValidateO {ε ρ : Type} (run : List Json → Outcome (Except ε ρ)) (a : CliArgs) (cfg : ConfigFile)
     (file : QueryFile) : Outcome (CliOut ε ρ) :=
   match cfg with
-  | .missing => .ok { log := [], result := .error .configFile }
+  | .unreadable => .ok { log := [], result := .error .configFile }
   | .unbuildable => .ok { log := [], result := .error .appBuild }
   | .good =>
     match file with
